@@ -103,6 +103,42 @@ func VerifHarness_Stake_Deliver() {
 		tx = verifTx(nonce0+1, verifGasPrice(), 0, TypeLock, LockData{DueBlock: uint32(due), Coin: 0, Value: value})
 	case 3:
 		tx = verifTx(nonce0+1, verifGasPrice(), 0, TypeDelegate, DelegateDataV260{PubKey: Q, Coin: 0, Value: value})
+	case 5, 6:
+		// C18/C05: switching a candidate on (5) or off (6): only its owner or control
+		// address, and not on while it is jailed.  R is owned by A (config
+		// "foreign": by B) and jailed until an arbitrary height.
+		R := verifPub(3)
+		own := u.A
+		if verifConfig("foreign") == 1 {
+			own = u.B
+		}
+		jailedUntil := verifU64("jailedUntil")
+		st.Candidates.Create(own, own, own, R, 10, 1, jailedUntil)
+		if kind == 6 {
+			st.Candidates.SetOnline(R)
+			tx = verifTx(nonce0+1, verifGasPrice(), 0, TypeSetCandidateOffline, SetCandidateOffData{PubKey: R})
+		} else {
+			tx = verifTx(nonce0+1, verifGasPrice(), 0, TypeSetCandidateOnline, SetCandidateOnData{PubKey: R})
+		}
+		u.cands = append(u.cands, R)
+		resp, _, _ := verifDeliverChecked(u, tx, verifSignBy(tx, 1), u.A, nonce0)
+		c := st.Candidates.GetCandidate(R)
+		if resp.Code == 0 {
+			verifAssert("C05:candidate-switched-only-by-owner-or-control", own == u.A)
+			if kind == 5 {
+				verifAssert("C18:jailed-candidate-not-switched-on-before-the-jail-ends", jailedUntil <= u.height)
+				verifAssert("C18:switched-on", c.Status == 2)
+			} else {
+				verifAssert("C18:switched-off", c.Status == 1)
+			}
+		} else {
+			want := byte(1)
+			if kind == 6 {
+				want = 2
+			}
+			verifAssert("C03:rejected-switch-leaves-the-status", c.Status == want)
+		}
+		return
 	}
 	resp, before, after := verifDeliverChecked(u, tx, verifSignBy(tx, 1), u.A, nonce0)
 	if resp.Code != 0 {
